@@ -5,5 +5,6 @@ CONSTANTS
   Tol = 0
   MaxRows = 0
   NKeys = 1
+  RankByLooks = FALSE
 
 CHECK_DEADLOCK FALSE
